@@ -328,8 +328,6 @@ func c02Gen(t *rapid.T) c02Case {
 	return c
 }
 
-var genTwins bool // c02Gen also lists some features twice
-
 // c02Templates enumerates all single-leaf and two-part locations over a sequence of length L.
 func smallLocs(L int, sites, ambig bool) []Loc {
 	leaves := []Loc{}
@@ -366,9 +364,7 @@ func TestC02(t *testing.T) {
 	if t.Failed() {
 		return
 	}
-	genTwins = true
-	rapidPart(t, c02Prop, st, "rapid-twins", pick(4000, 40000), c02Gen)
-	genTwins = false
+	rapidTwinsPart(t, c02Prop, st, pick(4000, 40000), c02Gen)
 	if t.Failed() {
 		return
 	}
